@@ -140,22 +140,7 @@ fn shape_tag(text: &[u8], e: &YamlValidationError) -> Option<&'static str> {
     }
     // (3) one of `[ { ' "` after white space / `,` / `[` / `{`, or `|` `>` after white space,
     //     *inside* a block plain scalar taken for the start of a node
-    if matches!(
-        e.kind,
-        YamlValidationErrorKind::ContentAfterBlockScalarHeader
-            | YamlValidationErrorKind::UnclosedFlow { .. }
-            | YamlValidationErrorKind::UnclosedQuote { .. }
-            | YamlValidationErrorKind::UnbalancedFlow { .. }
-            | YamlValidationErrorKind::TrailingContentAfterScalar
-            | YamlValidationErrorKind::TrailingContent
-            | YamlValidationErrorKind::MissingFlowSeparator
-            | YamlValidationErrorKind::UnexpectedFlowComma
-            | YamlValidationErrorKind::InvalidEscape { .. }
-            | YamlValidationErrorKind::CommentNotSeparated
-            | YamlValidationErrorKind::DocumentMarkerInScalar
-            | YamlValidationErrorKind::UnexpectedCharacter { .. }
-            | YamlValidationErrorKind::BadIndentation
-    ) && lines.iter().any(|l| plain_with_opener(l))
+    if !matches!(e.kind, YamlValidationErrorKind::TabInIndentation | YamlValidationErrorKind::InvalidUtf8 | YamlValidationErrorKind::NestingTooDeep { .. }) && lines.iter().any(|l| plain_with_opener(l))
     {
         return Some("opener-inside-plain-scalar");
     }
@@ -263,22 +248,8 @@ fn shape_from_spans(e: &YamlValidationError, r: &gy::RenderedYaml) -> Option<&'s
     gy::known_shapes(r).into_iter().find(|&s| match s {
         "compact-collection-return-after-deeper" => e.kind == K::BadIndentation,
         "tab-after-dash-before-flow-or-quoted" => e.kind == K::TabInIndentation,
-        "opener-inside-plain-scalar" => matches!(
-            e.kind,
-            K::ContentAfterBlockScalarHeader
-                | K::UnclosedFlow { .. }
-                | K::UnclosedQuote { .. }
-                | K::UnbalancedFlow { .. }
-                | K::TrailingContentAfterScalar
-                | K::TrailingContent
-                | K::MissingFlowSeparator
-                | K::UnexpectedFlowComma
-                | K::InvalidEscape { .. }
-                | K::CommentNotSeparated
-                | K::DocumentMarkerInScalar
-                | K::UnexpectedCharacter { .. }
-                | K::BadIndentation
-        ),
+        // a node opened in the middle of a scalar derails everything after it
+        "opener-inside-plain-scalar" => !matches!(e.kind, K::TabInIndentation | K::InvalidUtf8 | K::NestingTooDeep { .. }),
         "block-scalar-on-compact-line" => matches!(e.kind, K::UnknownAnchor { .. } | K::BadIndentation | K::TrailingContent),
         _ => false,
     })
@@ -400,7 +371,7 @@ pub fn run(cx: &mut Ctx) {
     cx.check(
         "generated-accepted",
         RULE,
-        Budget { quick: 16_000, thorough: 600_000, max_len: 3000 },
+        Budget { quick: 20_000, thorough: 600_000, max_len: 3000 },
         |u, st| {
             let (stream, r) = gen_text(u, &o, Some(st));
             st.describe(|| c14::describe(&stream, &r));
